@@ -109,3 +109,13 @@ Definition opt_eqb (a b : option Z) : bool :=
 (* every shown entry sits where the controller has it *)
 Definition belief_correct (st : list Z * fstate) : bool :=
   forallb (fun kv => opt_eqb (nth_error (fst st) (Z.to_nat (fst kv))) (Some (snd kv))) (fl_map (snd st)).
+
+(* ---- FaultLog.get_faultlog(start, limit): the slots it asks the controller for, in order -- range(start, min(start + limit, 64)), the loop
+   left after the first null reply (a slot at or beyond the length of the controller's log) ---- *)
+Fixpoint asks (log_len from n : nat) : list nat :=
+  match n with
+  | O => []
+  | S n' => from :: (if Nat.ltb from log_len then asks log_len (S from) n' else [])
+  end.
+Definition get_faultlog_asks (log_len start limit : nat) : list nat :=
+  asks log_len start (Nat.min (start + limit) 64 - start).
